@@ -142,6 +142,16 @@ def check(inp):
         rws = [tuple(float(rep[k].value[i]) for k in rep.par_names) for i in range(2 * n)]
         if tuple(float(np.atleast_1d(mpr[k].value)[0]) for k in rep.par_names) not in rws:
             bad("median_period", "is-a-member-row[repeated-periods]")
+    # negative integer keys count from the end; an EMPTY selection is still a table with the same names, units and metadata
+    for k in range(-n, n):
+        rowk = s[k]
+        if len(rowk) != 1 or any(float(np.atleast_1d(rowk[c].value)[0]) != float(s[c].value[k]) for c in s.par_names) or rowk.t_ref != tref:
+            bad("__getitem__", "integer-key-returns-that-member-row", key=k, rows=len(rowk))
+            break
+    for name_, empty in (("all-False-mask", s[np.zeros(n, dtype=bool)]), ("empty-slice", s[0:0])):
+        if list(empty.par_names) != list(s.par_names) or any(empty[c].unit != s[c].unit for c in s.par_names if c in empty.par_names) \
+                or empty.t_ref != tref or empty.poly_trend != 2 or len(empty) != 0:
+            bad("__getitem__", f"empty-selection-keeps-names-units-metadata[{name_}]", names=list(empty.par_names))
     # indexing / copy / reductions keep units and metadata
     def meta_ok(x):
         return x.t_ref == tref and x.poly_trend == 2 and x.n_offsets == 0 and all(x[k].unit == s[k].unit for k in s.par_names)
